@@ -128,6 +128,10 @@ def run(ctx):
             for text in ("table T { x:%s; }" % ref, "struct S { x:%s; }" % ref, "union U { %s } table T { u:U; }" % ref,
                          "table T { x:int; } root_type %s;" % ref, "enum E:int { A } table T { e:E = %s; }" % ref):
                 lines.append(("patho", "compile 0 %s" % text.encode().hex()))
+    # every prefix of a schema that touches every token kind: the buffer ends inside / right after each token
+    full = 'namespace A.B; attribute "prio"; enum E:ubyte { A = 1, B = 0x1f } struct S { x:[int:4]; y:float; } table T { a:int = -3 (id: 0, deprecated); f:double = 3.5e+10 (id: 1); s:string (id: 2, required); e:E = A (id: 3); } /* c */ root_type T; // end'
+    for k in range(len(full) + 1):
+        lines.append(("prefix", "compile 0 %s" % (full[:k].encode().hex() or "-")))
     for _ in range(100 if quick else 3000):
         n = r.choice([1, 5, 40, 400])
         lines.append(("random", "compile 0 %s" % bytes(r.choice(b"tablestruc{}[]():;,=\"' \n0123456789.-_AZaz/\\*\xff") for _ in range(n)).hex()))
@@ -201,19 +205,29 @@ def cli_checks(ctx, flatcc, r, quick):
         # the whole process runs under LeakSanitizer: the tool destroys its context before it exits, whatever the outcome
         rc, out, err = sh([flatcc, *opts, "-o", od, os.path.join(cd, main)], timeout=120, env=leak_env, cwd=cd)
         produced = sorted(os.listdir(od))
+        mt = files.get(main, b"")
+        tag = "cli %s %s %s" % (name, (mt if isinstance(mt, bytes) else mt.encode()).hex() or "-", " ".join(opts))     # the replay carries the main file
         if "LeakSanitizer" in err and "ERROR: AddressSanitizer" not in err:
-            bad.append(("cli " + name, "memory not released when the context was destroyed (LeakSanitizer)", err[-2500:]))
+            bad.append((tag,"memory not released when the context was destroyed (LeakSanitizer)", err[-2500:]))
         elif rc < 0 or rc > 128 and rc != 255 or "AddressSanitizer" in err or "runtime error" in err:
-            bad.append(("cli " + name, "flatcc crashed (rc=%d)" % rc, err[-1500:]))
-        elif expect_ok is True and rc != 0: bad.append(("cli " + name, "flatcc rejects a valid schema (rc=%d)" % rc, err[-800:]))
+            bad.append((tag,"flatcc crashed (rc=%d)" % rc, err[-1500:]))
+        elif expect_ok is True and rc != 0: bad.append((tag,"flatcc rejects a valid schema (rc=%d)" % rc, err[-800:]))
         elif expect_ok is False:
-            if rc == 0: bad.append(("cli " + name, "flatcc exits 0 for an invalid schema", err[-800:]))
+            if rc == 0: bad.append((tag,"flatcc exits 0 for an invalid schema", err[-800:]))
             else:
-                if not (out + err).strip(): bad.append(("cli " + name, "flatcc fails without a diagnostic", ""))
-                if produced: bad.append(("cli " + name, "flatcc generated output for a failed parse: %s" % produced[:5], err[-500:]))
+                if not (out + err).strip(): bad.append((tag,"flatcc fails without a diagnostic", ""))
+                if produced: bad.append((tag,"flatcc generated output for a failed parse: %s" % produced[:5], err[-500:]))
         shutil.rmtree(cd, ignore_errors=True)
     good = "namespace N; table T { x:int; s:string; } root_type T;\n"
     run_case("good", {"a.fbs": good}, "a.fbs", True)
+    # files that END (no newline: the tool reads them into an exact-size block) inside every kind of token
+    for k, tail in enumerate(["table T { x:int = 3", "table T { x:int (id: 3", "table T { x:float = 3.", "table T { x:float = 3.5", "table T { x:float = 3e", "table T { x:float = 3e+",
+                              "table T { x:float = 3e+1", "table T { x:int = 0", "table T { x:int = 0x", "table T { x:int = 0x1f", "table T { x:int = -", "table T { x:int = +1", "table T { x",
+                              "table T { s:string = \"ab", "table T { s:string = \"ab\\", "namespace A.", "namespace A.B", "attribute \"a", "table T { x:[int", "include \"a", "include \"a.fbs\"",
+                              "table T { x:int; } /", "table T { x:int = 1 (", "enum E:byte { A = 1", "enum E:byte { A = -", "struct S { x:[int:4", "rpc_service S { m(T):T", "file_identifier \"AB"]):
+        run_case("eof%d" % k, {"a.fbs": tail.encode()}, "a.fbs", False)
+    for k, tail in enumerate(["table T { x:int; } //", "table T { x:int; } // c", "table T { x:int; } /*", "table T { x:int; } /* c *", "table T { x:int; }\n\n", "table T { x:int; } "]):
+        run_case("eofc%d" % k, {"a.fbs": tail.encode()}, "a.fbs", None)
     run_case("good_inc", {"a.fbs": 'include "b.fbs"; table A { b:B; }', "b.fbs": "table B { x:int; }"}, "a.fbs", True)
     run_case("bad_syntax", {"a.fbs": "table T { x:int "}, "a.fbs", False)
     run_case("bad_semantic", {"a.fbs": "table T { x:Missing; }"}, "a.fbs", False)
